@@ -105,7 +105,11 @@ def expect_data(truth, fmt, Flen, items):
     e = Expect(truth)
     M = magnitude(truth)
     q = qwork(fmt, M, Flen)
-    S = int(np.abs(image_flags(truth)).sum(axis=1).max(initial=0))
+    # an atom within rounding of a face may legitimately get either of two adjacent flags
+    r = np.asarray(truth['rel'], float)
+    fl = np.maximum(np.abs(np.floor(r - 1e-8)), np.abs(np.floor(r + 1e-8)))
+    fl[:, [not p for p in truth['pbc']]] = 0
+    S = int(fl.sum(axis=1).max(initial=0))
     e.cellmode = 'enlarged' if not all(truth['pbc']) else 'exact'
     e.tol_vects = 3 * q
     e.tol_origin = 2 * q
